@@ -14,7 +14,7 @@ import (
 
 // resolveLocal finds the SSA value that holds source variable `name` at loop header h.
 // override supplies values for the header's φ-nodes (entry values or back-edge values).
-func (e *Engine) resolveLocal(f *frame, h *ssa.BasicBlock, name string, override map[*ssa.Phi]Val) (Val, bool) {
+func (e *Engine) resolveLocal(f *frame, h *ssa.BasicBlock, name string, wantType string, override map[*ssa.Phi]Val) (Val, bool) {
 	for _, ins := range h.Instrs {
 		phi, ok := ins.(*ssa.Phi)
 		if !ok {
@@ -45,12 +45,24 @@ func (e *Engine) resolveLocal(f *frame, h *ssa.BasicBlock, name string, override
 				if id, ok := x.Expr.(interface{ String() string }); ok && id.String() == name {
 					v := e.operand(f, x.X)
 					if x.IsAddr {
+						if strings.HasPrefix(wantType, "*") {
+							if _, isPtr := pointee(v.T).Underlying().(*types.Pointer); !isPtr {
+								return v, true // the variable's address (see the Alloc case)
+							}
+						}
 						return e.load(f.st, v), true
 					}
 					return v, true
 				}
 			case *ssa.Alloc:
 				if x.Comment == name {
+					// a local declared with a pointer type where the variable itself is a struct or
+					// array names the variable's address (methods with pointer receivers are called on it)
+					if strings.HasPrefix(wantType, "*") {
+						if _, isPtr := pointee(x.Type()).Underlying().(*types.Pointer); !isPtr {
+							return f.vals[x], true
+						}
+					}
 					return e.load(f.st, f.vals[x]), true
 				}
 			}
@@ -65,7 +77,7 @@ func (e *Engine) loopArgs(f *frame, lc *loopCtx, override map[*ssa.Phi]Val) []Va
 		args = append(args, f.args[i])
 	}
 	for _, l := range lc.spec.Locals {
-		v, ok := e.resolveLocal(f, lc.header, l.Name, override)
+		v, ok := e.resolveLocal(f, lc.header, l.Name, l.Type, override)
 		if !ok {
 			bail("loop %d of %s: no variable %q at the loop header (contract drift)", lc.ordinal, f.fn.Name(), l.Name)
 		}
@@ -498,7 +510,7 @@ func (e *Engine) backEdge(f *frame, from, h *ssa.BasicBlock) {
 	}
 	var split *CaseSplit
 	for _, sp := range lc.spec.Splits {
-		v, ok := e.resolveLocal(f, h, sp.Name, nil)
+		v, ok := e.resolveLocal(f, h, sp.Name, "", nil)
 		if !ok || len(v.C) != 1 || v.C[0].Op != "var" {
 			bail("loop %d of %s: split variable %q is not a loop-carried integer", lc.ordinal, f.fn.Name(), sp.Name)
 		}
